@@ -306,3 +306,56 @@ Theorem C14_rebuild_effect_kinds :
   only_effects [ERead; EMkdir; ECopy] call_graph direct_effects cmd_rebuild = true.
 Proof. exact gen_rebuild_effects. Qed.
 Print Assumptions C14_rebuild_effect_kinds.
+
+(* ---------------------------------------------------------------------------------------------- *)
+(* the whole command with the METAFILE as the only description of the torrent                       *)
+(* rebuild_of_metafile (Model/RebuildRun.v) = Metadata(path) [metadata_init] + the dispatch of       *)
+(* Metadata.rebuild + _map_pieces/_match_v1 or _match_v2 + the copypath calls; None = no Metadata    *)
+(* object, or outside the model (piece length not a positive int, negative lengths, `pieces` no      *)
+(* byte string).  v2_piece_length_ok: the piece length of a v2 / hybrid metafile is B * 2^k.         *)
+(* ---------------------------------------------------------------------------------------------- *)
+From TF Require Import Proofs.RebuildEndToEnd.
+
+Theorem C14_rebuild_of_metafile_writes_verified_copies : forall (H1 H256 : bytes -> bytes) B, 0 < B ->
+  forall (dsize : nat) (dest : path) (fm : filemap) (meta : value), v2_piece_length_ok B meta ->
+  forall f : fs, filemap_reflects f fm -> dest_disjoint dest fm ->
+  forall r : result, rebuild_of_metafile H1 H256 B dsize dest fm meta f = Some r ->
+  forall p : path, fs_of r p <> f p ->
+  exists x, metadata_init meta = Some x /\
+  ((exists e l data, In e (x_files x) /\ p = target dest e /\
+      indexed fm (text (e_filename e)) (l, data) /\ Z.of_nat (List.length data) = e_length e /\
+      basename (parts_of l) = text (e_filename e) /\ CopyPath.lookup f (parts_of l) = Some (File data) /\
+      fs_of r p = Some (File data) /\
+      (f p = None \/ exists old, f p = Some (File old) /\ List.length old < List.length data) /\
+      (if x_is_v2 x then verified H256 B e (l, data)
+       else exists pl s pn, pl_of (x_piece_length x) = Some pl /\ x_pieces x = BStr s /\
+              pn_full pn = full_text e /\
+              v1_justified H1 fm (v1_nodes pl (map vfile_of (x_files x)) (digests_of s)) l pn data)) \/
+   (p <> [] /\ f p = None /\ fs_of r p = Some Dir /\
+    exists e, In e (x_files x) /\ CopyPath.proper_prefix p (target dest e))).
+Proof. exact rebuild_of_metafile_writes_verified_copies. Qed.
+Print Assumptions C14_rebuild_of_metafile_writes_verified_copies.
+
+Theorem C14_rebuild_of_metafile_inside_destination : forall (H1 H256 : bytes -> bytes) B, 0 < B ->
+  forall (dsize : nat) (dest : path) (fm : filemap) (meta : value), v2_piece_length_ok B meta ->
+  forall f : fs, filemap_reflects f fm -> dest_disjoint dest fm ->
+  forall r : result, rebuild_of_metafile H1 H256 B dsize dest fm meta f = Some r ->
+  forall p : path, fs_of r p <> f p ->
+  exists x, metadata_init meta = Some x /\
+  (CopyPath.prefix (dest ++ [text (x_name x)]) p \/
+   (CopyPath.prefix p dest /\ p <> [] /\ f p = None /\ fs_of r p = Some Dir)).
+Proof. exact rebuild_of_metafile_inside_destination. Qed.
+Print Assumptions C14_rebuild_of_metafile_inside_destination.
+
+(* candidates, metafiles and everything that exists outside dest are untouched; the filemap still describes the filesystem;
+   the same command again is the same run and changes nothing *)
+Theorem C14_rebuild_of_metafile_sources_untouched_and_idempotent : forall (H1 H256 : bytes -> bytes) B, 0 < B ->
+  forall (dsize : nat) (dest : path) (fm : filemap) (meta : value), v2_piece_length_ok B meta ->
+  forall f : fs, filemap_reflects f fm -> dest_disjoint dest fm ->
+  forall r : result, rebuild_of_metafile H1 H256 B dsize dest fm meta f = Some r ->
+  (forall name l data, indexed fm name (l, data) -> fs_of r (parts_of l) = f (parts_of l)) /\
+  (forall p, f p <> None -> ~ CopyPath.prefix dest p -> fs_of r p = f p) /\
+  filemap_reflects (fs_of r) fm /\
+  rebuild_of_metafile H1 H256 B dsize dest fm meta (fs_of r) = Some r.
+Proof. exact rebuild_of_metafile_outside_untouched. Qed.
+Print Assumptions C14_rebuild_of_metafile_sources_untouched_and_idempotent.
